@@ -302,6 +302,16 @@ class FakeTLSSocket(FakeSocket):
     def pending(self):
         return len(self.conn.record)
 
+    def unwrap(self):
+        """TLS shutdown (close_notify). The peer of this world never answers it: after the socket's 30 s time-out the call fails,
+        as it does against any server that simply keeps the connection open (world.tls_unwrap = 'ok' makes it succeed)."""
+        self.w.log(self.conn, 'tls-unwrap', None)
+        self._check_open('unwrap')
+        if getattr(self.w, 'tls_unwrap', 'timeout') == 'ok' or self.conn.eof:
+            return self
+        self.w.clock.t += 30
+        raise _real_socket.timeout('The read operation timed out (close_notify not answered)')
+
     def _take(self, n):
         c = self.conn
         if c.record:
